@@ -11,7 +11,7 @@ import os
 from ..engine import VERIF, load_json
 from ..facts import site
 from ..symx import all_calls, closure_paths, cshow, paths_of, tshow
-from ..terms import display_norm, is_call, mentions, same, subterms
+from ..terms import display_norm, is_call, mentions, opt_polarity, same, subterms
 
 ADD = "ipp::attribute::IppAttributes::add"
 NEWATTR = "ipp::attribute::IppAttribute::new"
@@ -48,7 +48,7 @@ def field_cond(conds, field):
     res = None
     for c in conds:
         if c[0] == "match" and self_field(c[1]) == field and "Some" in c[2]:
-            res = (c[3] is True) if isinstance(c[3], bool) else (not c[2].startswith("!"))
+            res = opt_polarity(c)
         if c[0] == "if":
             t, pol = c[1], c[2]
             while isinstance(t, tuple) and t[0] == "un" and t[1] == "Not":
@@ -205,7 +205,7 @@ def check_base(run, F, T):
             has_uri = None
             for c in p.conds:
                 if c[0] == "match" and c[1] == ("var", "uri"):
-                    has_uri = (c[3] is True) if isinstance(c[3], bool) else not c[2].startswith("!")
+                    has_uri = opt_polarity(c)
             if fn == NEWREQ:
                 if has_uri:
                     want.add(("OperationAttributes", "printer-uri", "Uri", "<uri>"))
